@@ -40,7 +40,9 @@ def main():
             r = json.load(f)
         filt = [r['rule'], r['file'], r['function'], r['construct']]
     try:
-        for rulefn in PLAN[a.prop]:
+        import props as _props
+        fns = list(PLAN[a.prop]) + (list(_props.THOROUGH.get(a.prop, [])) if a.tier == 'thorough' else [])
+        for rulefn in fns:
             try:
                 rulefn(run)
             except F.AnalysisBroken as ex:
